@@ -15,6 +15,15 @@ package protocol
 //@      (forall i int, j int :: 0 <= i && i+1 < len(t) && t[i] <= j && j < t[i+1]-1 ==> c[j] != '\n') &&
 //@      (forall j int :: t[len(t)-1] <= j && j < len(c) ==> c[j] != '\n')
 
+// UTF-16 view of the content. u8w(a, q, n) / u16w(a, q, n): byte size and UTF-16 width (1, or 2 for a surrogate
+// pair) of the rune that starts at byte q when n bytes remain. u16len(a, s, q, e): UTF-16 length of the bytes
+// a[s:q) read rune by rune inside a[..e) - the column an LSP client counts. Defined by its recursion.
+//@ spec (declare-fun u8w ((Array Int Int) Int Int) Int)
+//@ spec (declare-fun u16w ((Array Int Int) Int Int) Int)
+//@ spec (declare-fun u16len ((Array Int Int) Int Int Int) Int)
+//@ axiom forall a (Array Int Int), s Int, e Int {u16len(a, s, s, e)} :: u16len(a, s, s, e) == 0
+//@ axiom forall a (Array Int Int), s Int, q Int, e Int {u16len(a, s, q, e)} :: s <= q && q < e ==> u16len(a, s, q + u8w(a, q, e-q), e) == u16len(a, s, q, e) + u16w(a, q, e-q)
+
 // once_done[m]: the lazily computed line table of Mapper m has been built (sync.Once fired).
 //@ ghost once_done (Array Int Bool) allocinit false
 
@@ -30,6 +39,7 @@ package protocol
 //@   ensures len(p) > 0 && p[0] >= 0x80 ==> r >= 0x80 && r <= 0x10FFFF
 //@   ensures r >= 0x10000 ==> size == 4
 //@   ensures forall k int :: 1 <= k && k < size ==> p[k] >= 0x80
+//@   ensures len(p) > 0 ==> size == u8w(arr(p), off(p), len(p)) && (r >= 0x10000 ==> u16w(arr(p), off(p), len(p)) == 2) && (r < 0x10000 ==> u16w(arr(p), off(p), len(p)) == 1)
 //@   pure
 //@   trusted
 //@ extern bytes.Count
@@ -78,6 +88,7 @@ package protocol
 //@   loop 0 invariant 0 <= col8 && offset + col8 <= len(m.Content) && 0 <= col16 && col16 <= int(p.Character)
 //@   loop 0 invariant forall j int :: offset <= j && j < offset + col8 ==> m.Content[j] != '\n'
 //@   loop 0 invariant col8 <= 4*col16
+//@   loop 0 invariant col16 == u16len(arr(m.Content), off(m.Content)+offset, off(m.Content)+offset+col8, off(m.Content)+len(m.Content))
 //@   loop 0 invariant (forall j int :: offset <= j && j < offset + int(p.Character) && j < len(m.Content) ==> m.Content[j] < 0x80) ==> col8 == col16
 //@   ensures[fail]     err != nil ==> off == 0
 //@   ensures[line]     err == nil ==> int(p.Line) <= len(m.lineStart)
@@ -86,11 +97,18 @@ package protocol
 //@   ensures[sameline] err == nil && int(p.Line) < len(m.lineStart) ==> (forall j int :: m.lineStart[int(p.Line)] <= j && j < off ==> m.Content[j] != '\n')
 //@   ensures[col0]     err == nil && int(p.Line) < len(m.lineStart) && p.Character == 0 ==> off == m.lineStart[int(p.Line)]
 //@   ensures[ascii]    err == nil && int(p.Line) < len(m.lineStart) && (forall j int :: m.lineStart[int(p.Line)] <= j && j < m.lineStart[int(p.Line)] + int(p.Character) && j < len(m.Content) ==> m.Content[j] < 0x80) ==> off == m.lineStart[int(p.Line)] + int(p.Character)
+//@   ensures[utf16]    err == nil && int(p.Line) < len(m.lineStart) ==> u16len(arr(m.Content), off(m.Content)+m.lineStart[int(p.Line)], off(m.Content)+off, off(m.Content)+len(m.Content)) == int(p.Character) || (u16len(arr(m.Content), off(m.Content)+m.lineStart[int(p.Line)], off(m.Content)+off, off(m.Content)+len(m.Content)) == int(p.Character) - 1 && u16w(arr(m.Content), off(m.Content)+off, len(m.Content)-off) == 2)
 //@   ensures[rep]      once_done[m] && ls_ok(m.lineStart, m.Content) && m.Content == old(m.Content)
 //@   modifies m.lineStart, m.nonASCII, once_done
 //@   safe
 //@   property C21
 
+// what the last RangeOffsets call saw and answered (used by the text-sync contract)
+//@ ghost ro_dat (Array Int Int)
+//@ ghost ro_off Int
+//@ ghost ro_len Int
+//@ ghost ro_start Int
+//@ ghost ro_end Int
 //@ func (*Mapper).RangeOffsets
 //@   mode int
 //@   results start, end, err
@@ -98,7 +116,12 @@ package protocol
 //@   requires[rep] once_done[m] ==> ls_ok(m.lineStart, m.Content)
 //@   ensures[range]   err == nil ==> 0 <= start && start <= len(m.Content) && 0 <= end && end <= len(m.Content)
 //@   ensures[content] m.Content == old(m.Content)
-//@   modifies m.lineStart, m.nonASCII, once_done
+//@   sets ro_dat = arr(m.Content)
+//@   sets ro_off = off(m.Content)
+//@   sets ro_len = len(m.Content)
+//@   sets ro_start = start
+//@   sets ro_end = end
+//@   modifies m.lineStart, m.nonASCII, once_done, ro_dat, ro_off, ro_len, ro_start, ro_end
 //@   safe
 //@   property C21
 
